@@ -37,6 +37,11 @@ Theorem C03_nonneg : forall (len : R) l, Forall goodP l -> Forall (fun x : R => 
 Proof. exact nli_nonneg. Qed.
 Print Assumptions C03_nonneg.
 
+Theorem C03_nonneg_fiber : forall (fb : fiberR) l pl v,
+  attach_all fb l = Ok pl -> Forall goodP pl -> fiber_nli fb l = Ok v -> Forall (fun x : R => 0 <= x) v.
+Proof. exact fiber_nli_nonneg. Qed.
+Print Assumptions C03_nonneg_fiber.
+
 (* cube law, for every real factor k, at the level of the fibre (launched powers, before the input connector) *)
 Theorem C03_cubic : forall (fb : fiberR) (k : R) l v,
   fiber_nli fb l = Ok v -> fiber_nli fb (map (scale_chanR k) l) = Ok (map (Rmult (k * k * k)) v).
